@@ -175,6 +175,22 @@ func keyDependsOn(m *Module, fn *ssa.Function, keyArg ssa.Value, keyFns []string
 	if dependsOnCall(keyArg, keyFns...) {
 		return true
 	}
+	// "field:<Type>.<name>": the key is built from that field (the key builder written in line)
+	for _, k := range keyFns {
+		if rest, ok := strings.CutPrefix(k, "field:"); ok {
+			if i := strings.LastIndex(rest, "."); i > 0 && dependsOnField(keyArg, "", rest[i+1:]) {
+				hit := false
+				backSlice(keyArg, true, func(x ssa.Value) {
+					if t, f, _, okf := fieldOf(x); okf && f == rest[i+1:] && strings.HasSuffix(t, rest[:i]) {
+						hit = true
+					}
+				})
+				if hit {
+					return true
+				}
+			}
+		}
+	}
 	// a key given as "=<literal>" in keyFns matches a constant key
 	if s, ok := constString(keyArg); ok {
 		for _, k := range keyFns {
